@@ -349,6 +349,11 @@ func (b *assignmentBuilder) castNode(lhsType types.Type, rhs bmodel.Node) (c bmo
 		return rhs, true
 	}
 
+	if rhs.ReturnsError() {
+		// A two-value call cannot be wrapped by String() or a conversion.
+		return nil, false
+	}
+
 	if b.opts.Stringer && types.AssignableTo(util.StringType(), lhsType) && util.CompliesStringer(rhs.ExprType()) {
 		return b.castNode(lhsType, bmodel.NewStringer(rhs))
 	}
